@@ -56,6 +56,18 @@ CLAIMED["C10"] = ("18 theorems on the generic weekly-rewards-splitting model ins
     "over any history; totals frozen once by a claim; deposits claimable from the next week; the expiry-bucket invariant and total_energy(week) = sum of users' decayed energies (safe_sub never saturates); "
     "sum paid <= deposited per week and token; the collector's balance covers the claimable window; permitted claims never abort. Tied to fees-collector + energy mock by differential replay.", "7 C10",
     "Coq inductive invariants (bucket bookkeeping refinement) + ghost-ledger history theorem + correspondence")
+CLAIMED["C12"] = ("Inductive invariant of the staking money-flow model for every history: accrued <= capacity; staking-token balance = direct principal + outstanding unbond amounts + un-accrued capacity + reserve (+ donations); "
+    "per-settlement accrual bounded by supply*APR/(10000*blocks_per_year) per block (cross-multiplied), by the rate, by capacity; unbond tokens unlock exactly min_unbond epochs after unstake, the epoch never changes, "
+    "unbond never succeeds earlier and pays the token amount once; admin withdrawal bounded by un-accrued capacity after settling. Reward amounts and position payments are inputs guarded by the same counters as the code. "
+    "Tied to farm-staking by differential replay incl. proxy (virtual) stakes.", "7 C12", "Coq inductive invariant + characterisation theorems + correspondence")
+CLAIMED["C14"] = ("23 theorems on the router model (registry + world of Model.Pair contracts + ledger) for every reachable world: one pair per unordered token pair, order-insensitive exact lookup, listed pairs distinct and consistent; "
+    "createPair guard set and effect, removePair; management endpoints, upgrade, user-enabled swaps and every multiPairSwap hop act only on registered pairs and an unregistered hop fails the call; "
+    "multi-hop ledger: router delta 0 for every token, caller delta = -input + payments, each hop is exactly Pair.step on that pair alone (C03 formulas apply), any failing hop fails all, failed step leaves the world unchanged. "
+    "Tied to router + pair template by differential replay (registry views, flags, balances, 12 observables per pair).", "23 C14", "Coq reachable-state invariant + characterisation theorems + correspondence")
+CLAIMED["C15"] = ("14 theorems on the farm-staking-proxy model (callee answers are inputs; interface laws L1-L7 are boolean predicates checked on every real answer and L1-L3, L6, L7 proved on Model/Farm, Model/Pair, Model/SafePrice): "
+    "for every history the proxy holds exactly the LP-farm and staking-farm tokens its outstanding dual-yield tokens record, all fungible balances 0; partial redemption = floor of the proportional share, sum of parts never exceeds the whole; "
+    "unstake output order and unbond amount; registered staking value is the staking side of the safe-price (TWAP) answer and the only price query. Tied to the real pair + farm-with-locked-rewards + farm-staking + proxy by differential replay.",
+    "14 C15", "Coq inductive invariant + characterisation theorems relative to stated callee laws + correspondence")
 NOT_YET = {}
 
 def main():
